@@ -8,9 +8,12 @@ from __future__ import annotations
 
 import copy
 import datetime
+import uuid
+import decimal
 import typing as t
 
 from vlib.cond import Cond
+from vlib.fixtures import iterobjs as O
 from vlib.fixtures import mod_a, mod_b
 from vlib.fixtures import models as M
 from vlib.prelude import SYMBOLIC, Chooser, NoTracing, reached
@@ -23,7 +26,7 @@ META = {
                   "codecs.codec / graph.static_order (routine and graph caches)", "typelib.py.inspection.* (per-predicate caches)",
                   "Delayed*._resolved", "typelib.ctx.TypeContext.__missing__ (alias memo)", "typelib.api.encode/decode/marshal/unmarshal"],
     "bounds": {
-        "quick": "all sequences of length <= 3 over an alphabet of 25 operation instances (21 fixed, among them the same reference text issued from two modules, + 4 seed-rotated from 30): "
+        "quick": "all sequences of length <= 3 over an alphabet of 25 operation instances (21 fixed, among them the same reference text issued from two modules, + 4 seed-rotated from 49), and all ordered pairs over the whole alphabet of 70 instances + 3 special steps: "
                  "marshal / unmarshal / encode / decode / strload / isoformat on pools of equal-but-distinct operands (both member orders "
                  "of one union, equal instants with different offsets, 1 / 1.0 / True, the same text as str / bytes), build-routine ops, "
                  "deep-mutate the previous result, deep-mutate the previous input, clear caches",
@@ -52,7 +55,27 @@ def canon(x, depth=0):
         return (tx.__name__, x.isoformat(), str(x.utcoffset()))
     if hasattr(x, "__dataclass_fields__"):
         return (tx.__name__, tuple((f, canon(getattr(x, f))) for f in x.__dataclass_fields__))
+    if tx is memoryview:
+        return ("memoryview", bytes(x) if not _released(x) else "<released>")
+    if tx.__repr__ is object.__repr__:  # no value rendering of its own: by attributes (slots and / or __dict__)
+        names = [n for c in tx.__mro__ for n in getattr(c, "__slots__", ())] + sorted(getattr(x, "__dict__", {}))
+        return (tx.__name__, tuple((n, canon(getattr(x, n), depth + 1)) for n in names if hasattr(x, n)))
     return (tx.__name__, repr(x))
+
+
+def _released(mv):
+    try:
+        mv.nbytes and mv[0]
+        return False
+    except ValueError:
+        return True
+
+
+def _snapshot(x):
+    """A copy for the "input unmodified" comparison (memoryviews cannot be deep-copied: their bytes are kept)."""
+    if type(x) is memoryview:
+        return memoryview(bytes(x))
+    return copy.deepcopy(x)
 
 
 def containers(x, acc, depth=0):
@@ -166,7 +189,27 @@ def _ops():
         op("isoformat(time 12:00Z)", "equal_instant", lambda: tm_utc, lambda x: serdes.isoformat(x)),
         op("codec(Point).decode", "text", lambda: b'{"x": 1, "y": 2}', lambda x: typelib.codec(M.Point).decode(x)),
         op("codec(Point).encode", "plain", lambda: M.Point(1, 2), lambda x: typelib.codec(M.Point).encode(x)),
-        op("build(marshaller(Union[str,int]))", "build", lambda: None, lambda x: type(typelib.marshaller(U2)).__name__),
+        op("build(marshaller(Union[str,int]))", "union_order", lambda: None, lambda x: type(typelib.marshaller(U2)).__name__),
+        # per-class field iterators, per-routine key conversion, per-class hint caches
+        op("unmarshal(dict[str,int],slots_obj)", "plain", lambda: O.slots_only(1, 9, 2), lambda x: typelib.unmarshal(dict[str, int], x)),
+        op("marshal(slots_obj,t=dict[str,int])", "plain", lambda: O.slots_only(5, 9, 6), lambda x: typelib.marshal(x, t=dict[str, int])),
+        op("unmarshal(UUID,True)", "numeric_alias", lambda: True, lambda x: typelib.unmarshal(uuid.UUID, x)),
+        op("unmarshal(UUID,1.0)", "numeric_alias", lambda: 1.0, lambda x: typelib.unmarshal(uuid.UUID, x)),
+        op("unmarshal(UUID,UUID(7))", "numeric_alias", lambda: uuid.UUID(int=7), lambda x: typelib.unmarshal(uuid.UUID, x)),
+        op("unmarshal(UUID,TaggedUUID(7))", "numeric_alias", lambda: M.TaggedUUID(int=7), lambda x: typelib.unmarshal(uuid.UUID, x)),
+        op("unmarshal(dict[str,int],[(True,'1')])", "numeric_alias", lambda: [(True, "1")], lambda x: typelib.unmarshal(dict[str, int], x)),
+        op("unmarshal(dict[str,int],[(1.0,'2')])", "numeric_alias", lambda: [(1.0, "2")], lambda x: typelib.unmarshal(dict[str, int], x)),
+        op("marshal({D('1.0'):1},t=dict[Decimal,int])", "numeric_alias", lambda: {decimal.Decimal("1.0"): 1}, lambda x: typelib.marshal(x, t=dict[decimal.Decimal, int])),
+        op("marshal({D('1.00'):1},t=dict[Decimal,int])", "numeric_alias", lambda: {decimal.Decimal("1.00"): 1}, lambda x: typelib.marshal(x, t=dict[decimal.Decimal, int])),
+        op("unmarshal(dict[tuple[int,int],str],pairs)", "plain", lambda: [([1, 2], "a")], lambda x: typelib.unmarshal(dict[tuple[int, int], str], x)),
+        op("marshal(InitOnly)", "plain", lambda: M.InitOnly(1, datetime.date(2020, 1, 2), [3]), lambda x: typelib.marshal(x)),
+        op("marshal([InitOnly],t=list[InitOnly])", "plain", lambda: [M.InitOnly(1, datetime.date(2020, 1, 2), [3])], lambda x: typelib.marshal(x, t=list[M.InitOnly])),
+        op("unmarshal(InitOnly,dict)", "plain", lambda: {"id": "1", "placed": "2020-01-02", "tags": ["3"]}, lambda x: typelib.unmarshal(M.InitOnly, x)),
+        op("unmarshal(Optional[str],'x')", "plain", lambda: "x", lambda x: typelib.unmarshal(t.Optional[str], x)),
+        op("unmarshal(Optional[str],None)", "plain", lambda: None, lambda x: typelib.unmarshal(t.Optional[str], x)),
+        op("codec(Optional[str]).decode('\"x\"')", "text", lambda: b'"x"', lambda x: typelib.codec(t.Optional[str]).decode(x)),
+        op("codec(Optional[str]).decode('null')", "text", lambda: b"null", lambda x: typelib.codec(t.Optional[str]).decode(x)),
+        op("unmarshal(Union[int,str],memoryview)", "union_order", lambda: memoryview(b"twelve"), lambda x: typelib.unmarshal(U1, x)),
     ]
     return core, pool
 
@@ -176,6 +219,8 @@ SPECIAL = ["<mutate previous result>", "<mutate previous input>", "<clear caches
 
 def alphabet(seed):
     core, pool = _ops()
+    if seed == "full":
+        return core + pool
     k = (seed * 4) % len(pool)
     return core + (pool + pool)[k:k + 4]
 
@@ -224,7 +269,7 @@ def run_sequence(ops, cold, seq, _nested=False):
         op = ops[k]
         hist.append(op.name)
         x = op.mk_input()
-        snap = copy.deepcopy(x)
+        snap = _snapshot(x)
         got, r = outcome(op, x)
         if got != cold[op.name]:
             if not _nested:
@@ -297,6 +342,8 @@ def make(first, length, seed, timeout):
 
     ops = alphabet(seed)
     nm = (ops[first].name if first < len(ops) else SPECIAL[first - len(ops)])
+    if seed == "full":
+        return Cond(f"pair/{first:02d}:{nm}", [(f"c{i}", int) for i in range(length)], body, mode="E3", timeout=timeout)
     return Cond(f"seq/s{seed % 8}/{first:02d}:{nm}", [(f"c{i}", int) for i in range(length)], body, mode="E3", timeout=timeout)
 
 
@@ -309,4 +356,8 @@ def conditions(tier, seed):
         n = len(alphabet(sd)) + len(SPECIAL)
         for first in range(n):
             out.append(make(first, length, sd, to))
+    # every ordered pair over the *whole* alphabet (fixed + all rotated instances): most history defects need two calls
+    n = len(alphabet("full")) + len(SPECIAL)
+    for first in range(n):
+        out.append(make(first, 2, "full", to))
     return out
